@@ -200,6 +200,10 @@ func aolRules(p *Prog, r *Report, clause string, want func(tag string) bool) *ao
 	}
 	topicSt := structOf(p, aolTypesPkg, "Topic")
 	ownerSt := structOf(p, aolTypesPkg, "Owner")
+	nMutating := 0
+	// a handler whose store accesses the checker cannot see (calls it cannot resolve) would be classified "read-only" and skip
+	// every guard and pairing rule: the four message handlers must be recognised as mutating
+	defer func() { r.Floor("aol-handlers-recognised-as-mutating", nMutating, 4) }()
 	for _, msgName := range names {
 		fn := m.handlers[msgName]
 		h := m.analyseHandler(msgName, fn)
@@ -220,6 +224,7 @@ func aolRules(p *Prog, r *Report, clause string, want func(tag string) bool) *ao
 		if h.kind == "read-only" {
 			continue
 		}
+		nMutating++
 		// every mutation happens on every success path (pairing) — counter & auth both rely on it
 		for _, mc := range h.muts {
 			ok := unconditionalOnSuccess(fn, mc.cs.Instr, h.o)
